@@ -102,7 +102,6 @@ impl Matcher {
 
         let cost_offsets = self.compute_cost_offsets(&transactions)?;
         let mut future_consumption: HashMap<usize, Decimal> = HashMap::new();
-        let mut same_day_reservations: HashMap<(NaiveDate, String), Decimal> = HashMap::new();
 
         // Process transactions in order, grouped by date
         // Buys are added before same-day sells for matching; cost offsets already applied.
@@ -155,7 +154,6 @@ impl Matcher {
                         &transactions,
                         &cost_offsets,
                         &mut future_consumption,
-                        &mut same_day_reservations,
                     )?;
                 }
             }
@@ -372,7 +370,6 @@ impl Matcher {
         all_transactions: &[GbpTransaction],
         cost_offsets: &[Decimal],
         future_consumption: &mut HashMap<usize, Decimal>,
-        same_day_reservations: &mut HashMap<(NaiveDate, String), Decimal>,
     ) -> Result<(), CgtError> {
         let Operation::Sell { amount, .. } = &tx.operation else {
             return Ok(());
@@ -417,7 +414,6 @@ impl Matcher {
             all_transactions,
             cost_offsets,
             future_consumption,
-            same_day_reservations,
         )?;
         for m in bnb_matched {
             self.matches.push(m);
